@@ -665,6 +665,36 @@ func runC07(r *engine.Run) {
 					c.Fail("registry/framing-differs-from-model", fmt.Sprintf("after %v: stream %x (uplink=%v): %s", x.PathNames(path), stream, uplink, msg), nil)
 				}
 				c.Outcome(fmt.Sprintf("registry/framed/size=%d", sz))
+				// two commands with this CID and different bytes in one stream, and a second
+				// stream decoded while the first result is kept: every command keeps its own bytes
+				if sz > 0 && 2*(1+sz) <= 15 {
+					mk := func(seed byte) []byte {
+						out := []byte{cid}
+						for k := 0; k < sz; k++ {
+							out = append(out, seed+byte(k))
+						}
+						return out
+					}
+					dec := func(stream []byte) ([]lorawan.Payload, error) {
+						q := lorawan.PHYPayload{MHDR: lorawan.MHDR{MType: mt}, MACPayload: &lorawan.MACPayload{FHDR: lorawan.FHDR{FOpts: []lorawan.Payload{&lorawan.DataPayload{Bytes: append([]byte(nil), stream...)}}}}}
+						err := q.DecodeFOptsToMACCommands()
+						return q.MACPayload.(*lorawan.MACPayload).FHDR.FOpts, err
+					}
+					s1 := append(mk(0x10), mk(0x20)...)
+					first, err1 := dec(s1)
+					want1 := []spec.Cmd{{CID: cid, Payload: mk(0x10)[1:]}, {CID: cid, Payload: mk(0x20)[1:]}}
+					if msg := sameCmds(uplink, first, want1); err1 != nil || msg != "" {
+						c.Fail("registry/repeated-proprietary-command", fmt.Sprintf("after %v: stream %x (uplink=%v): %s (err %v)", x.PathNames(path), s1, uplink, msg, err1), nil)
+						continue
+					}
+					if _, err2 := dec(append(mk(0x30), mk(0x40)...)); err2 == nil {
+						if msg := sameCmds(uplink, first, want1); msg != "" {
+							c.Fail("registry/decoded-command-changed-by-later-decode", fmt.Sprintf("after %v: the commands decoded from %x changed when another stream was decoded: %s", x.PathNames(path), s1, msg), nil)
+							continue
+						}
+					}
+					c.Outcome("registry/repeated-proprietary-command-decoded")
+				}
 				// the encoder side: a proprietary command carrying the size registered for
 				// its direction encodes to CID|payload (MACCommand.MarshalBinary has no
 				// direction; it must not apply the other direction's size), alone and
